@@ -66,6 +66,8 @@
 (*                cos, and the turn is right-handed                         *)
 (* fam "linsolve": [sub, site, A, X, B, outcome, got, exact, resid, tolOK,  *)
 (*              hasFwd, fwd, fwdEx]                                         *)
+(*   (sub "ls3reg": A, B are the normal system rows^T rows + lam I,         *)
+(*    rows^T rhs of LeastSquaresReg3's arguments, re-derived by "input")    *)
 (*   input      - B = A X in integers (A symmetric, strictly diagonally     *)
 (*                dominant, positive diagonal for Cholesky)                 *)
 (*   terminates - no panic / hang.  BiCGSTAB on a non-symmetric system may  *)
@@ -196,6 +198,8 @@ RotClauses == {"panic", "exact", "orthogonal", "det", "axis", "trace", "handed"}
 ---------------------------------------------------------------------------
 MulRows(A, X) == [i \in 1..Len(A) |-> [c \in 1..Len(X[1]) |-> Sum([k \in 1..Len(X) |-> A[i][k] * X[k][c]])]]
 LinOk == R.outcome = "ok"
+\* the normal matrix of ridge regression: rows^T rows + lam I
+Ridge(rows, lam) == [i \in 1..3 |-> [j \in 1..3 |-> Sum([k \in 1..Len(rows) |-> rows[k][i] * rows[k][j]]) + (IF i = j THEN lam ELSE 0)]]
 \* symmetric and strictly diagonally dominant with a positive diagonal: positive definite, so neither Cholesky
 \* nor BiCGSTAB (which is then conjugate gradients in disguise) can break down
 Spd(A) == /\ \A i, j \in 1..Len(A) : A[i][j] = A[j][i]
@@ -206,6 +210,8 @@ Claimed == LinOk /\ (IsBicg => (Spd(R.A) \/ R.tolOK))
 LinHolds(c) ==
     CASE c = "input" -> /\ MulRows(R.A, R.X) = R.B
                         /\ R.sub = "chol" => Spd(R.A)
+                        /\ R.sub = "ls3reg" => /\ R.A = Ridge(R.rows, R.lam)
+                                               /\ R.B = [i \in 1..3 |-> <<Sum([k \in 1..Len(R.rows) |-> R.rows[k][i] * R.rhs[k][1]])>>]
                         /\ IsBicg => (R.maxIt = 0 <=> \A i, j \in 1..Len(R.A) : R.A[i][j] = R.A[j][i])
       [] c = "terminates" -> IF IsBicg /\ ~Spd(R.A) THEN LinOk \/ (R.outcome = "panic" /\ R.panic = "NaN detected during solving")
                              ELSE LinOk
